@@ -733,7 +733,10 @@ def check_estimators(run, A):
     q = D + 'complex_angular_central_gaussian::ComplexAngularCentralGaussianTrainer._fit'
     fn = A.prog.func(q)
     g = A.graphs.get(fn)
-    s = [s for s in ein.find_sites(A, q) if len(s.operands) == 3][0]
+    three = [s for s in ein.find_sites(A, q) if len(s.operands) == 3]
+    if not three:
+        raise AnalysisError(f'{q}: the weighted scatter  sum_n w_n z_n z_n^H  (a contraction of three operands) is no longer recognised')
+    s = three[0]
     w = strip_views(s.operands[2])
     okq = w.op == 'binop' and w.args[0] == 'Div' and is_saliency_term(w.args[1]) and \
         any(x.op == 'param' and x.args[0] == 'quadratic_form' for x in walk_terms(w.args[2], into_mu=False))
@@ -843,6 +846,8 @@ def check(run):
     check_stale_loop_variables(run, A, ('pb_bss.distribution.', 'pb_bss.initializer.'))
     from ..opt import check_extent_loops
     check_extent_loops(run, A, ('pb_bss.distribution.', 'pb_bss.initializer.'))
+    from ..opt import check_block_partitions
+    check_block_partitions(run, A, ('pb_bss.distribution.', 'pb_bss.initializer.'))
     check_forwarding(run, A, ('pb_bss.distribution.', 'pb_bss.initializer.'))
     check_params_reach(run, A, ('pb_bss.distribution.', 'pb_bss.initializer.'))
     check_optional_truthiness(run, A, ('pb_bss.distribution.', 'pb_bss.initializer.'))
